@@ -115,11 +115,11 @@ pub fn check_text(ctx: &mut Ctx, t: &str, must_accept: Option<&Pos>) -> Result<(
     }
     match guarded(|| Game::from_str(t).map(|g| g.current_position())) {
         Err(e) => ctx.fail("parse:panic", format!("Game::from_str({:?}) panicked: {}", t, e), case())?,
-        Ok(g) => {
-            if g.is_ok() != rb.is_ok() {
-                ctx.fail("parse:game-vs-board", format!("Game::from_str and Board::from_str disagree on {:?}", t), case())?;
-            }
+        Ok(Ok(gb)) => {
+            // a game built from text holds a position converted from that text: same conditions
+            check_accepted(ctx, &gb, &case)?;
         }
+        Ok(Err(_)) => {}
     }
     match (&rb, must_accept) {
         (Err(e), Some(p)) => {
